@@ -49,9 +49,14 @@ def aurel_name(v):
     return ET_TO_AUREL.get(v, v)
 
 
+def g3(ghost):
+    """Ghost width per axis: an int (isotropic) or a tuple (gx, gy, gz)."""
+    return tuple(ghost) if isinstance(ghost, (tuple, list)) else (ghost,) * 3
+
+
 def global_array(var, it, rl, restart, shape, ghost):
     """Full array incl. the ghost shell, (x, y, z) order."""
-    nx, ny, nz = (s + 2 * ghost for s in shape)
+    nx, ny, nz = (s + 2 * g for s, g in zip(shape, g3(ghost)))
     code = (((ALLVARS.index(var) * 4096 + it) * 4 + rl) * 8 + restart)
     idx = np.arange(nx * ny * nz, dtype=np.float64).reshape(nx, ny, nz)
     return code * 100000.0 + idx
@@ -59,9 +64,9 @@ def global_array(var, it, rl, restart, shape, ghost):
 
 def truth(var, it, rl, restart, shape, ghost):
     g = global_array(var, it, rl, restart, shape, ghost)
-    if ghost == 0:
-        return g
-    return g[ghost:-ghost, ghost:-ghost, ghost:-ghost].copy()
+    gx, gy, gz = g3(ghost)
+    nx, ny, nz = g.shape
+    return g[gx:nx - gx, gy:ny - gy, gz:nz - gz].copy()
 
 
 def time_of(it):
@@ -167,8 +172,8 @@ def write_restart(path, spec, restart, rspec):
                 G = global_array(var, it, rl, restart, shape, ghost)
                 for c, box in enumerate(boxes):
                     (x0, x1), (y0, y1), (z0, z1) = box
-                    sub = G[x0:x1 + 2 * ghost, y0:y1 + 2 * ghost,
-                            z0:z1 + 2 * ghost]
+                    gx, gy, gz = g3(ghost)
+                    sub = G[x0:x1 + 2 * gx, y0:y1 + 2 * gy, z0:z1 + 2 * gz]
                     use_suffix = proc and (
                         nchunks > 1 or spec.get('force_file_suffix', False))
                     fn = _file_name(var, grouped, use_suffix, c, xyz)
@@ -186,7 +191,7 @@ def write_restart(path, spec, restart, rspec):
         with h5py.File(os.path.join(path, fn), 'w') as f:
             for key, data, iorigin, it, rl, thorn, var in dsets:
                 d = f.create_dataset(key, data=data)
-                d.attrs['cctk_nghostzones'] = np.array([ghost] * 3,
+                d.attrs['cctk_nghostzones'] = np.array(g3(ghost),
                                                        dtype=np.int32)
                 d.attrs['iorigin'] = np.array(iorigin, dtype=np.int32)
                 d.attrs['time'] = np.float64(time_of(it))
@@ -224,8 +229,8 @@ def write_checkpoint(path, spec, restart, rspec, it):
                                  restart, shape, ghost)
                 for c, box in enumerate(boxes):
                     (x0, x1), (y0, y1), (z0, z1) = box
-                    sub = G[x0:x1 + 2 * ghost, y0:y1 + 2 * ghost,
-                            z0:z1 + 2 * ghost]
+                    gx, gy, gz = g3(ghost)
+                    sub = G[x0:x1 + 2 * gx, y0:y1 + 2 * gy, z0:z1 + 2 * gz]
                     per_proc = spec['proc'] and nchunks > 1
                     fn = (f"checkpoint.chkpt.it_{it}.file_{c}.h5"
                           if per_proc else f"checkpoint.chkpt.it_{it}.h5")
@@ -239,7 +244,7 @@ def write_checkpoint(path, spec, restart, rspec, it):
         with h5py.File(os.path.join(path, fn), 'w') as f:
             for key, data, iorigin, tm in dsets:
                 d = f.create_dataset(key, data=data)
-                d.attrs['cctk_nghostzones'] = np.array([ghost] * 3,
+                d.attrs['cctk_nghostzones'] = np.array(g3(ghost),
                                                        dtype=np.int32)
                 d.attrs['iorigin'] = np.array(iorigin, dtype=np.int32)
                 d.attrs['time'] = np.float64(tm)
@@ -265,7 +270,9 @@ CoordBase::boundary_shiftout_z_lower = 1
 CoordBase::boundary_shiftout_x_upper = 1
 CoordBase::boundary_shiftout_y_upper = 1
 CoordBase::boundary_shiftout_z_upper = 1
-driver::ghost_size = {ghost}
+driver::ghost_size_x = {gx}
+driver::ghost_size_y = {gy}
+driver::ghost_size_z = {gz}
 IOHDF5::one_file_per_group = {ofpg}
 IO::out_dir = $parfile
 """
@@ -284,7 +291,8 @@ def write_sim(root, spec):
         if r == 0 or rspec.get('par', False):
             with open(os.path.join(out, simname + '.par'), 'w') as f:
                 f.write(PAR_TEMPLATE.format(
-                    xmin=0.0, xmax=10.0, dx=1.0, ghost=spec['ghost'],
+                    xmin=0.0, xmax=10.0, dx=1.0, gx=g3(spec['ghost'])[0],
+                    gy=g3(spec['ghost'])[1], gz=g3(spec['ghost'])[2],
                     ofpg='"yes"' if spec['grouped'] else '"no"'))
     return make_param(root, simname)
 
